@@ -297,6 +297,10 @@ def check_answer_shape(chk, rq, d, a):
                           dict(request=rq, input_repr=repr(d), implementation=a), found_input=True, broken="c19 oracle (positions inside the buffer)")
 
 def deps_part(chk, report=True):
+    """see deps_part_body; never raises on unexpected answers (BuildError excepted)"""
+    return guarded(chk, "deps-part", deps_part_body, report) if report else deps_part_body(chk, report)
+
+def deps_part_body(chk, report=True):
     """C19, dependency-file parsers: every byte-string stream through the normal and the ASan build of the driver
     (exact-size heap buffers without terminator) and through the extracted model.  Oracle on the implementation: no
     sanitizer report, no crash, an answer within the timeout, problems reported only through the error callback with
@@ -576,7 +580,7 @@ NAMES += COLON_ESCAPE_PATHS[:4] + [b"inc:my hdr.h"]
 QUOTE_PATHS = [b'"config"', b'"a b"', b"'q r'", b'"', b'""', b'"a', b"'x'", b'"a":b', b'"x"/y.h']
 NAMES += QUOTE_PATHS[:4] + [b"'x'"]
 # relative spellings with dot components, for the working directory reached through a symbolic link (mode symlink-wd)
-DOT_NAMES = [b"../x", b"./x", b"a/../x", b"sub/./x", b"../x y", b"a/../sub/../x"]
+DOT_NAMES = [b"../x", b"./x", b"a/../x", b"sub/./x", b"../x y", b"sub/../a/../x"]     # every prefix must exist: a/.. is real/other, which has no `sub`
 STYLES = ["makefile", "dependency-info"]
 ALL_STYLES = STYLES + ["makefile-ignoring-subsequent-outputs"]
 MODES = ["relative", "absolute", "relative-wd", "absolute-wd"]
@@ -911,17 +915,33 @@ def inprocess_part(chk):
 
 # ------------------------------------------------------------------ entry points
 
+def guarded(chk, phase, fn, *args, **kw):
+    """A phase must end in a verdict, never in an exception: output of the implementation (or of the model) that the
+    judging code cannot digest is itself reported, with what is known about the input."""
+    import traceback
+    try:
+        return fn(chk, *args, **kw)
+    except vlib.BuildError:
+        raise
+    except Exception as e:
+        tb = traceback.format_exc()
+        chk.violation("unexpected-output-" + phase, "phase %s of the check could not interpret what the implementation (or the model) answered: %r" % (phase, e),
+                      dict(broken="correspondence: answer format of the drivers / model in phase %s" % phase, traceback=tb[-3000:],
+                           last_disagreements={k: v[:2] for k, v in chk.notes.items() if k.startswith("disagreements_")}),
+                      found_input=False, broken="correspondence: unexpected driver output (%s)" % phase)
+        return None
+
 def run(chk):
     sides(chk)
     chk.proof_gate()
     # the property's own oracles on the implementation first; model/implementation disagreements are reported last and
     # only when no oracle produced a failing input
-    writer_part(chk)
-    cli_part(chk)
-    inprocess_part(chk)
-    deps_part(chk, report=False)
+    guarded(chk, "writer", writer_part)
+    guarded(chk, "cli", cli_part)
+    guarded(chk, "inprocess", inprocess_part)
+    guarded(chk, "byte-strings", deps_part, report=False)
     report_disagreements(chk, "parsers")
-    glue_part(chk)
+    guarded(chk, "glue", glue_part)
     if not chk.violations:
         shutil.rmtree(sandbox(), ignore_errors=True)       # failing sandboxes are kept for inspection
     shutil.rmtree(sides(chk).bindir, ignore_errors=True)
